@@ -262,9 +262,16 @@ def _m_executor_execute(interp, args, kwargs):
     st = interp.st
     bound = dict(configuration=args[0], test_case=args[1])
     st.emit('partial-executor', bound)      # same events as a contract with event='partial-executor' emits
+    before = fsmodel.cwd(interp)
     elsewhere = Str.make(interp, 'cwd-after-executor')
     fsmodel.declare_dir(interp, elsewhere)
     st.ghost['cwd'] = elsewhere
+    if st.choose(2) == 1:
+        # the test case may have removed the directory Exactly was started in (or made it inaccessible): nothing
+        # is known about it any more, so changing back to it may fail (seeded change C04-s9)
+        f = fsmodel.fs(interp)
+        f['dirs'] = [d for d in f['dirs'] if d is not before]
+        st.emit('start-directory-may-be-gone')
     k = st.choose(2)
     if k == 1:
         exc = ArbitraryException('anything the executor lets escape')
@@ -326,8 +333,18 @@ M.contract(P_EXE + ':execute',
                result is events(trace, 'partial-executor:returned')[0][2],
                'executor-runs-once': lambda trace: len(events(trace, 'partial-executor')) == 1,
            },
-           raises={Exception: {'ensures': lambda old, trace: os.getcwd() == old and rmtree_events(trace) == []
-                                                             and events(trace, 'partial-executor:raised') != []}},
+           raises={
+               # the directory Exactly was started in cannot be entered again (the test case removed it): the error
+               # escapes, but the sandbox is removed all the same ("removed on every outcome")
+               OSError: {'ensures': lambda is_keep_sandbox, trace:
+                         events(trace, 'start-directory-may-be-gone') != []
+                         and (events(trace, 'partial-executor:returned') == []
+                              or rmtree_events(trace) == (
+                                  [('rmtree', str(events(trace, 'partial-executor:returned')[0][2].sds.root_dir), True)]
+                                  if events(trace, 'partial-executor:returned')[0][2].has_sds and not is_keep_sandbox
+                                  else []))},
+               Exception: {'ensures': lambda old, trace: os.getcwd() == old and rmtree_events(trace) == []
+                                                         and events(trace, 'partial-executor:raised') != []}},
            raises_only=())
 
 
